@@ -8,6 +8,7 @@
 import MxModel.Gen.KStakingToken
 import MxModel.Props.KMath
 import MxModel.Core.Staking
+import MxModel.Lemmas.KTactic
 
 namespace Mx.KStakingToken
 open Mx Mx.Gen Mx.Staking
@@ -17,32 +18,16 @@ open Mx Mx.Gen Mx.Staking
 theorem rule_of_three_eq (x full total : Nat) :
     KStakingToken.rule_of_three x full total =
       if x = total then some full else if total = 0 then none else some (full * x / total) := by
-  by_cases h : x = total
-  · simp only [KStakingToken.rule_of_three, KStakingToken.get_total_supply, if_pos h,
-      Option.bind_eq_bind, Option.bind_some, Option.pure_def]
-  · by_cases h0 : total = 0
-    · simp only [KStakingToken.rule_of_three, KStakingToken.get_total_supply, if_neg h, div?,
-        if_pos h0, Option.bind_eq_bind, Option.bind_some, Option.pure_def]
-    · simp only [KStakingToken.rule_of_three, KStakingToken.get_total_supply, if_neg h, div?,
-        if_neg h0, Option.bind_eq_bind, Option.bind_some, Option.pure_def]
+  k_defs [KStakingToken.rule_of_three, KStakingToken.get_total_supply]
+  k_solve
 
 /-- source `into_part(payment_amount)` IS the model's `Attrs.intoPart` on the two fields it writes
     (`compounded_reward`, `current_farm_amount`) -/
 theorem into_part_eq (t : Attrs) (x : Nat) :
     KStakingToken.into_part x t.compounded t.amount =
       (t.intoPart x).map (fun p => (p.compounded, p.amount)) := by
-  by_cases h : x = t.amount
-  · simp only [KStakingToken.into_part, KStakingToken.get_total_supply, Attrs.intoPart, if_pos h,
-      Option.bind_eq_bind, Option.bind_some, Option.pure_def, Option.map_some]
-  · by_cases h0 : t.amount = 0
-    · have h0' : ¬ t.amount ≠ 0 := fun c => c h0
-      simp only [KStakingToken.into_part, KStakingToken.get_total_supply, rule_of_three_eq,
-        Attrs.intoPart, if_neg h, if_pos h0, req, if_neg h0', Option.bind_eq_bind,
-        Option.bind_some, Option.pure_def, Option.bind_none, Option.map_none]
-    · have h0' : t.amount ≠ 0 := h0
-      simp only [KStakingToken.into_part, KStakingToken.get_total_supply, rule_of_three_eq,
-        Attrs.intoPart, if_neg h, if_neg h0, req, if_pos h0', Option.bind_eq_bind,
-        Option.bind_some, Option.pure_def, Option.map_some]
+  k_defs [KStakingToken.into_part, KStakingToken.get_total_supply, Attrs.intoPart, rule_of_three_eq]
+  k_solve
 
 /-- `into_part` leaves the index and the original owner alone -/
 theorem intoPart_frame {t p : Attrs} {x : Nat} (h : t.intoPart x = some p) :
@@ -61,15 +46,9 @@ theorem intoPart_frame {t p : Attrs} {x : Nat} (h : t.intoPart x = some p) :
 theorem merge_with_eq (t o : Attrs) :
     KStakingToken.merge_with t.compounded t.amount t.rps o.compounded o.amount o.rps =
       (t.mergeWith o).map (fun m => (m.compounded, m.amount, m.rps)) := by
-  by_cases h : t.amount + o.amount = 0
-  · have h' : ¬ t.amount + o.amount ≠ 0 := fun c => c h
-    simp only [KStakingToken.merge_with, KStakingToken.get_total_supply,
-      Mx.KMath.weighted_average_round_up_eq, Attrs.mergeWith, if_pos h, req, if_neg h',
-      Option.bind_eq_bind, Option.bind_some, Option.pure_def, Option.bind_none, Option.map_none]
-  · have h' : t.amount + o.amount ≠ 0 := h
-    simp only [KStakingToken.merge_with, KStakingToken.get_total_supply,
-      Mx.KMath.weighted_average_round_up_eq, Attrs.mergeWith, if_neg h, req, if_pos h',
-      Option.bind_eq_bind, Option.bind_some, Option.pure_def, Option.map_some]
+  k_defs [KStakingToken.merge_with, KStakingToken.get_total_supply, Attrs.mergeWith,
+    Mx.KMath.weighted_average_round_up_eq, weightedAvgRoundUp, ceilDiv]
+  k_solve
 
 /-- `merge_with` keeps the original owner of the receiver -/
 theorem mergeWith_frame {t o m : Attrs} (h : t.mergeWith o = some m) : m.owner = t.owner := by
@@ -82,11 +61,8 @@ theorem mergeWith_frame {t o m : Attrs} (h : t.mergeWith o = some m) : m.owner =
 theorem get_initial_farming_tokens_eq (comp amt : Nat) :
     KStakingToken.get_initial_farming_tokens comp amt =
       if amt < comp then none else some (amt - comp) := by
-  by_cases h : comp ≤ amt
-  · have h' : ¬ amt < comp := by omega
-    simp only [KStakingToken.get_initial_farming_tokens, sub?, if_pos h, if_neg h']
-  · have h' : amt < comp := by omega
-    simp only [KStakingToken.get_initial_farming_tokens, sub?, if_neg h, if_pos h']
+  k_defs [KStakingToken.get_initial_farming_tokens]
+  k_solve
 
 example : KStakingToken.into_part 30 10 100 = some (3, 30) := by decide
 example : KStakingToken.merge_with 1 10 100 2 20 101 = some (3, 30, 101) := by decide
